@@ -89,7 +89,7 @@ var registry = map[string]*PropDef{
 	"C08": {
 		Harnesses: []HarnessDef{
 			{Pkg: "cmd", Func: "VP_C08_Positions", Quick: map[string]int{"commits": 11}, Thorough: map[string]int{"commits": 13}, Share: 1.00},
-			{Pkg: "cmd", Func: "VP_C08_Reset", Quick: map[string]int{"complen": 1, "junk": 2}, Thorough: map[string]int{"complen": 1, "junk": 3}, Share: 1.00},
+			{Pkg: "cmd", Func: "VP_C08_Reset", Quick: map[string]int{"complen": 1, "junk": 1}, Thorough: map[string]int{"complen": 1, "junk": 3}, Share: 1.00},
 		},
 		QuickBudget: 10 * time.Minute, ThoroughBudget: 45 * time.Minute, Assumptions: commonAssumptions,
 	},
@@ -177,6 +177,8 @@ var registry = map[string]*PropDef{
 			{Pkg: "internal/store", Func: "VP_C19_ConfigLoad", Quick: map[string]int{"n": 5}, Thorough: map[string]int{"n": 7}, Share: 1.00},
 			{Pkg: "internal/store", Func: "VP_C19_NewHead", Quick: map[string]int{"n": 5}, Thorough: map[string]int{"n": 7}, Share: 1.00},
 			{Pkg: "internal/store", Func: "VP_C19_RefsLoad", Quick: map[string]int{"n": 5}, Thorough: map[string]int{"n": 7}, Share: 1.00},
+			{Pkg: "internal/store", Func: "VP_C19_MutatedFiles", Quick: map[string]int{}, Thorough: map[string]int{}, Share: 1.00},
+			{Pkg: "internal/object", Func: "VP_C19_MutatedObjects", Quick: map[string]int{}, Thorough: map[string]int{}, Share: 1.00},
 			{Pkg: "internal/store", Func: "VP_C19_ReflogLoad", Quick: map[string]int{"n": 5}, Thorough: map[string]int{"n": 7}, Share: 1.00},
 		},
 		QuickBudget: 10 * time.Minute, ThoroughBudget: 45 * time.Minute, Assumptions: commonAssumptions,
